@@ -130,15 +130,17 @@ structure LInv (l : Level) (n : Nat) (H : Hist) : Prop where
   szpos : 0 < l.size
   len : l.buckets.length = n
   old : l.oldest < n
-  grid : l.end_ % l.size = 0
+  grid : l.end_ % l.size = 0 ∨ l.end_ = zeroTime
   cells : ∀ i, i < n → logical l n i = ⟨sumIn (cellLo l n i) (cellHi l n i) H, false⟩
   le_end : ∀ p ∈ H, p.1 ≤ l.end_
 
-theorem LInv.rotate {l : Level} {n : Nat} {H : Hist} (h : LInv l n H) : LInv (l.rotate n) n H := by
+theorem LInv.rotate {l : Level} {n : Nat} {H : Hist} (h : LInv l n H) (hg : l.end_ % l.size = 0) :
+    LInv (l.rotate n) n H := by
   have hn := h.npos
   refine ⟨h.npos, h.szpos, by simp [Level.rotate, h.len], Nat.mod_lt _ (by omega), ?_, ?_, ?_⟩
-  · show (l.end_ + l.size) % l.size = 0
-    rw [Int.add_emod_right]; exact h.grid
+  · left
+    show (l.end_ + l.size) % l.size = 0
+    rw [Int.add_emod_right]; exact hg
   · intro i hi
     unfold logical
     show valB ((l.buckets.modify l.oldest clearB).getD (((l.oldest + 1) % n + i) % n) none) = _
@@ -183,39 +185,42 @@ theorem LInv.rotate {l : Level} {n : Nat} {H : Hist} (h : LInv l n H) : LInv (l.
 /-- `rotLoop` keeps the invariant and ends with `end - size < t ≤ end` when started with
 `end - size < t` … or simply `t ≤ end` when it does nothing. -/
 theorem LInv.rotLoop {n : Nat} {H : Hist} (fuel : Nat) (t : Int) :
-    ∀ {l : Level}, LInv l n H → (t - l.end_).toNat ≤ fuel →
-      LInv (rotLoop n fuel t l) n H ∧ t ≤ (rotLoop n fuel t l).end_ ∧
+    ∀ {l : Level}, LInv l n H → l.end_ % l.size = 0 → (t - l.end_).toNat ≤ fuel →
+      LInv (rotLoop n fuel t l) n H ∧ (rotLoop n fuel t l).end_ % l.size = 0 ∧ t ≤ (rotLoop n fuel t l).end_ ∧
       (rotLoop n fuel t l).size = l.size ∧
       ((l.end_ < t ∨ l.end_ - l.size < t) → (rotLoop n fuel t l).end_ - l.size < t) ∧
       (t ≤ l.end_ → rotLoop n fuel t l = l) := by
   induction fuel with
   | zero =>
-    intro l h hf
+    intro l h hg hf
     have e : NetVerif.Model.TimeSeries.rotLoop n 0 t l = l := rfl
     rw [e]
-    refine ⟨h, by omega, rfl, ?_, fun _ => rfl⟩
+    refine ⟨h, hg, by omega, rfl, ?_, fun _ => rfl⟩
     intro hc; rcases hc with c | c <;> omega
   | succ k ih =>
-    intro l h hf
+    intro l h hg hf
     have e : NetVerif.Model.TimeSeries.rotLoop n (k + 1) t l =
         if t > l.end_ then NetVerif.Model.TimeSeries.rotLoop n k t (l.rotate n) else l := rfl
     rw [e]
     by_cases hc : t > l.end_
     · rw [if_pos hc]
       have hsz := h.szpos
-      have hr := h.rotate
+      have hr := h.rotate hg
+      have hg' : (l.rotate n).end_ % (l.rotate n).size = 0 := by
+        show (l.end_ + l.size) % l.size = 0
+        rw [Int.add_emod_right]; exact hg
       have hf' : (t - (l.rotate n).end_).toNat ≤ k := by
         show (t - (l.end_ + l.size)).toNat ≤ k
         omega
-      obtain ⟨a, b, c, d, e⟩ := ih hr hf'
+      obtain ⟨a, g2, b, c, d, e⟩ := ih hr hg' hf'
       have hs : (l.rotate n).size = l.size := rfl
-      refine ⟨a, b, by rw [c, hs], ?_, fun hle => by omega⟩
+      refine ⟨a, by rw [hs] at g2; exact g2, b, by rw [c, hs], ?_, fun hle => by omega⟩
       intro _
       have := d (Or.inr (by show l.end_ + l.size - l.size < t; omega))
       rw [hs] at this
       exact this
     · rw [if_neg hc]
-      refine ⟨h, by omega, rfl, ?_, fun _ => rfl⟩
+      refine ⟨h, hg, by omega, rfl, ?_, fun _ => rfl⟩
       intro hx; rcases hx with c | c <;> omega
 
 theorem wrap64_id (t : Int) (h : minDur ≤ t ∧ t ≤ maxDur) : wrap64 t = t := by
@@ -236,26 +241,38 @@ theorem mult_nonneg (k sz : Int) (hsz : 0 < sz) (h : -sz < k * sz) : 0 ≤ k * s
   nlinarith
 
 theorem LInv.farReset {l : Level} {n : Nat} {H : Hist} (h : LInv l n H) (t : Int)
-    (hin : minDur ≤ t ∧ t ≤ maxDur) (hfar : ¬ (t < l.end_ + l.size * n)) :
-    LInv (l.farReset t) n H ∧ (l.farReset t).end_ - l.size < t ∧ (l.farReset t).size = l.size := by
+    (hin : minDur ≤ t ∧ t ≤ maxDur) (hfar : ¬ (t < l.end_ + l.size * n)) (hcap : l.size * n ≤ maxDur) :
+    LInv (l.farReset t) n H ∧ (l.farReset t).end_ - l.size < t ∧ (l.farReset t).size = l.size ∧
+    (l.farReset t).end_ % l.size = 0 := by
   have hsz := h.szpos
   have hE : (l.farReset t).end_ = t.tdiv l.size * l.size := by
     unfold Level.farReset; simp only; rw [wrap64_id t hin]
   have m1 := Int.mul_tdiv_add_tmod t l.size
   have m2 := Int.tmod_lt_of_pos t hsz
   have m3 := Int.lt_tmod_of_pos t hsz
-  -- end is a multiple of size
-  have g1 := Int.emod_add_mul_ediv l.end_ l.size
-  rw [h.grid] at g1
+  have hnn : (0 : Int) ≤ l.size * n := by positivity
+  have hn1 : l.size ≤ l.size * n := by
+    have : (1 : Int) ≤ n := by have := h.npos; omega
+    nlinarith
   have hkey : l.end_ ≤ (l.farReset t).end_ - l.size * n := by
     rw [hE]
-    have hmul : -l.size < (t.tdiv l.size - n - l.end_ / l.size) * l.size := by nlinarith
-    have := mult_nonneg _ _ hsz hmul
-    nlinarith
-  have hnn : (0 : Int) ≤ l.size * n := by positivity
-  refine ⟨⟨h.npos, h.szpos, by simp [Level.farReset, h.len], h.old, ?_, ?_, ?_⟩, ?_, rfl⟩
-  · rw [hE]; show t.tdiv l.size * l.size % l.size = 0
-    exact Int.mul_emod_left _ _
+    rcases h.grid with hg | hz
+    · -- end is a multiple of size
+      have g1 := Int.emod_add_mul_ediv l.end_ l.size
+      rw [hg] at g1
+      have hmul : -l.size < (t.tdiv l.size - n - l.end_ / l.size) * l.size := by nlinarith
+      have := mult_nonneg _ _ hsz hmul
+      nlinarith
+    · -- the level never advanced: its end is the zero time, far below every in-range time
+      rw [hz]
+      unfold zeroTime
+      unfold minDur maxDur at hin
+      unfold maxDur at hcap
+      nlinarith
+  have hstrong : (l.farReset t).end_ % l.size = 0 := by
+    rw [hE]; exact Int.mul_emod_left _ _
+  refine ⟨⟨h.npos, h.szpos, by simp [Level.farReset, h.len], h.old, ?_, ?_, ?_⟩, ?_, rfl, hstrong⟩
+  · left; exact hstrong
   · intro i hi
     unfold logical
     show valB ((l.buckets.map clearB).getD ((l.oldest + i) % n) none) = _
@@ -276,24 +293,33 @@ theorem LInv.farReset {l : Level} {n : Nat} {H : Hist} (h : LInv l n H) (t : Int
     omega
   · rw [hE]; nlinarith
 
-/-- One level of `advance`: afterwards the level is current for `t`. -/
+/-- One level of `advance`: afterwards the level is current for `t` (and on its grid). -/
 theorem LInv.advanceTo {l : Level} {n : Nat} {H : Hist} (h : LInv l n H) (t : Int)
-    (hin : minDur ≤ t ∧ t ≤ maxDur) (hlt : l.end_ < t) :
+    (hin : minDur ≤ t ∧ t ≤ maxDur) (hlt : l.end_ < t) (hcap : l.size * n ≤ maxDur) :
     LInv (l.advanceTo n t) n H ∧ t ≤ (l.advanceTo n t).end_ ∧ (l.advanceTo n t).end_ - l.size < t ∧
-    (l.advanceTo n t).size = l.size := by
+    (l.advanceTo n t).size = l.size ∧ (l.advanceTo n t).end_ % l.size = 0 := by
   unfold Level.advanceTo
   by_cases hfar : ¬ (t < l.end_ + l.size * n)
   · simp only [hfar, not_false_eq_true, if_true]
-    obtain ⟨a, b, c⟩ := h.farReset t hin hfar
-    obtain ⟨r1, r2, r3, r4, r5⟩ := LInv.rotLoop (n := n) (H := H) _ t a (Nat.le_refl _)
-    refine ⟨r1, r2, ?_, by rw [r3, c]⟩
+    obtain ⟨a, b, c, g⟩ := h.farReset t hin hfar hcap
+    obtain ⟨r1, rg, r2, r3, r4, r5⟩ := LInv.rotLoop (n := n) (H := H) _ t a (by rw [c]; exact g) (Nat.le_refl _)
+    refine ⟨r1, r2, ?_, by rw [r3, c], by rw [c] at rg; exact rg⟩
     by_cases hle : t ≤ (l.farReset t).end_
     · rw [r5 hle]; exact b
     · have := r4 (Or.inl (by omega))
       rw [c] at this; exact this
   · simp only [hfar, if_false]
-    obtain ⟨r1, r2, r3, r4, _⟩ := LInv.rotLoop (n := n) (H := H) _ t h (Nat.le_refl _)
-    exact ⟨r1, r2, r4 (Or.inl hlt), r3⟩
+    have hg : l.end_ % l.size = 0 := by
+      rcases h.grid with hg | hz
+      · exact hg
+      · exfalso
+        rw [hz] at hfar
+        unfold zeroTime at hfar
+        unfold minDur maxDur at hin
+        unfold maxDur at hcap
+        omega
+    obtain ⟨r1, rg, r2, r3, r4, _⟩ := LInv.rotLoop (n := n) (H := H) _ t h hg (Nat.le_refl _)
+    exact ⟨r1, r2, r4 (Or.inl hlt), r3, rg⟩
 
 /-- Which logical bucket `mergeValue` touches, in terms of the exact quotient. -/
 theorem satq (x sz : Int) (n : Nat) (hx : 0 ≤ x) (hsz : 0 < sz) (hcap : sz * n ≤ maxDur) :
@@ -601,7 +627,7 @@ theorem extract_aligned {l : Level} {n : Nat} {H : Hist} (h : LInv l n H) (lastA
 /-- Regrouping: what was merged as one observation at the (grid-aligned) pending time is the sum of
 observations that all lie in the same cell. -/
 theorem LInv.regroup {l : Level} {n : Nat} {Hm Hp : Hist} (pt : Int)
-    (h : LInv l n ((pt, sumAll Hp) :: Hm)) (hgrid : pt % l.size = 0)
+    (h : LInv l n ((pt, sumAll Hp) :: Hm)) (hgrid : pt % l.size = 0) (hZ : zeroTime % l.size = 0)
     (hin : ∀ p ∈ Hp, pt - l.size < p.1 ∧ p.1 ≤ pt) : LInv l n (Hp ++ Hm) := by
   have hsz := h.szpos
   refine ⟨h.npos, h.szpos, h.len, h.old, h.grid, ?_, ?_⟩
@@ -616,7 +642,10 @@ theorem LInv.regroup {l : Level} {n : Nat} {Hm Hp : Hist} (pt : Int)
       have : pt - cellLo l n i = pt - l.end_ + l.size * ((n : Int) - i) := by rw [cb1]; ring
       rw [this, Int.add_mul_emod_self_left]
       have d1 : l.size ∣ pt := Int.dvd_of_emod_eq_zero hgrid
-      have d2 : l.size ∣ l.end_ := Int.dvd_of_emod_eq_zero h.grid
+      have d2 : l.size ∣ l.end_ := by
+        rcases h.grid with hg | hz
+        · exact Int.dvd_of_emod_eq_zero hg
+        · rw [hz]; exact Int.dvd_of_emod_eq_zero hZ
       exact Int.emod_eq_zero_of_dvd (Int.dvd_sub d1 d2)
     have hhi : cellHi l n i = cellLo l n i + l.size := by rw [cb1, cb2]
     by_cases hc : cellLo l n i < pt ∧ pt ≤ cellHi l n i
@@ -669,7 +698,7 @@ structure RInv (s : TS) (sz : Int) (l0 : Level) (rest : List Level) (Hm Hp : His
 /-- `RI s sz Hm Hp`: some finest level carries the invariant. -/
 def RI (s : TS) (sz : Int) (Hm Hp : Hist) : Prop := ∃ l0 rest, RInv s sz l0 rest Hm Hp
 
-theorem ri_mergePending {s : TS} {sz : Int} {Hm Hp : Hist} (h : RI s sz Hm Hp) :
+theorem ri_mergePending {s : TS} {sz : Int} {Hm Hp : Hist} (h : RI s sz Hm Hp) (hZ : zeroTime % sz = 0) :
     RI s.mergePending sz (Hp ++ Hm) [] ∧ s.mergePending.dirty = false ∧
     s.mergePending.lastAdd = s.lastAdd ∧ s.mergePending.n = s.n ∧ s.mergePending.pendingTime = s.pendingTime ∧
     (∀ l0 rest, s.levels = l0 :: rest → ∃ l0' rest', s.mergePending.levels = l0' :: rest' ∧
@@ -686,6 +715,9 @@ theorem ri_mergePending {s : TS} {sz : Int} {Hm Hp : Hist} (h : RI s sz Hm Hp) :
         show s.pendingTime % (l0.merge s.n s.pending s.pendingTime).size = 0
         have : (l0.merge s.n s.pending s.pendingTime).size = l0.size := by unfold Level.merge; simp only; split <;> rfl
         rw [this, r.size]; exact r.pt_grid)
+      (by
+        have : (l0.merge s.n s.pending s.pendingTime).size = l0.size := by unfold Level.merge; simp only; split <;> rfl
+        rw [this, r.size]; exact hZ)
       (by
         have : (l0.merge s.n s.pending s.pendingTime).size = l0.size := by unfold Level.merge; simp only; split <;> rfl
         rw [this, r.size]; exact r.hp_in)
